@@ -161,7 +161,10 @@ def run(chk):
         s, e = sep[0], evt[0]
         # separator under the flag
         g = [(b.switch_origin(gbb), list(vals)) for gbb, vals, n in b.guards_of(s.bb)]
-        if not any(mir.o_field_path(so)[1] == ["file_needs_recovery"] and vals != ["0"] for so, vals in g):
+        def flag_set(so, vals):
+            base, pos = mir.norm_bool(so)
+            return mir.o_field_path(base)[1] == ["file_needs_recovery"] and ((vals != ["0"]) == pos)
+        if not any(flag_set(so, vals) for so, vals in g):
             return False, "the recovery separator is not written exactly when file_needs_recovery is set", [], s.loc
         if not b.dominates(s.bb, e.bb) and not any(True for _ in [0]):
             pass
